@@ -49,6 +49,7 @@ func raceScenario(s *Sim, params map[string]string) {
 		s.DoneWhen(func() bool { return true })
 		return
 	}
+	s.Coalesce = Pick(t, "coalesce", time.Duration(0), 200*time.Microsecond, 2*time.Millisecond, 10*time.Millisecond)
 	n := NewNet(s)
 	n.MinLatency = time.Duration(t.Range("cfg", 1, 20)) * 100 * time.Microsecond
 	n.MaxLatency = n.MinLatency // no draws from free-running goroutines
@@ -71,6 +72,18 @@ func raceScenario(s *Sim, params map[string]string) {
 		// brokers that accept a request and stay silent: attempts end on the
 		// client's own time-outs while the request is still held by the connection
 		cl.F = FaultCfg{Stall: 350, StallReset: 2 * time.Second, ErrorCode: 50, APIs: map[int16]bool{0: true, 1: true, 2: true, 8: true, 9: true}, Until: 3 * time.Second}
+	}
+	if nb > 1 && t.Intn("cfg", 3) == 0 {
+		// the broker set changes while requests are being routed: a broker
+		// leaves the metadata and comes back, once or twice
+		victim := cl.Brokers[t.Intn("cfg", nb)]
+		at := time.Duration(t.Range("cfg", 20, 1500)) * time.Millisecond
+		for k := 0; k < t.Range("cfg", 1, 2); k++ {
+			down := time.Duration(t.Range("cfg", 30, 600)) * time.Millisecond
+			s.After(at, "broker-down", func() { cl.SetBrokerUp(victim, false) })
+			s.After(at+down, "broker-back", func() { cl.SetBrokerUp(victim, true) })
+			at += down + time.Duration(t.Range("cfg", 50, 800))*time.Millisecond
+		}
 	}
 	if params["force"] == "silent-produce" {
 		cl.F = FaultCfg{Stall: 1000, StallReset: 2 * time.Second, APIs: map[int16]bool{0: true}, Until: 3 * time.Second}
@@ -427,10 +440,25 @@ func raceScenario(s *Sim, params map[string]string) {
 		tr := &kafka.Transport{Dial: n.Dialer("race-client"), ClientID: "race", DialTimeout: 2 * time.Second, MetadataTTL: Pick(t, "cfg", 5*time.Second, 100*time.Millisecond), IdleTimeout: Pick(t, "cfg", 30*time.Second, 200*time.Millisecond)}
 		client := &kafka.Client{Addr: kafka.TCP(addr), Transport: tr, Timeout: 2 * time.Second}
 		na := t.Range("cfg", 2, 5)
+		// churn: the set of brokers in the metadata changes with (almost) every
+		// refresh while many requests are being routed
+		churn := t.Intn("cfg", 3) == 0
+		opsPer := 0
+		if churn {
+			tr.MetadataTTL = Pick(t, "cfg", 3*time.Millisecond, 10*time.Millisecond)
+			na, opsPer = 6, 25
+			flapper := cl.AddBroker(int32(nb+1), "") // leads nothing
+			at := time.Duration(t.Range("cfg", 1, 20)) * time.Millisecond
+			for k := 0; k < 60; k++ {
+				up := k%2 == 1
+				s.After(at, "broker-flap", func() { cl.SetBrokerUp(flapper, up) })
+				at += time.Duration(t.Range("cfg", 4, 25)) * time.Millisecond
+			}
+		}
 		for a := 0; a < na; a++ {
 			r := seedOf()
 			s.Go(fmt.Sprintf("c%d", a), func() {
-				for i := 0; i < 3+r.intn(6); i++ {
+				for i := 0; i < 3+r.intn(6)+opsPer; i++ {
 					ctx, cancel := context.WithTimeout(context.Background(), r.dur(5*time.Millisecond, 2*time.Second))
 					switch r.intn(6) {
 					case 0:
